@@ -104,15 +104,18 @@ func (x *Exec) libCall2(s *State, site ssa.Instruction, fn *ssa.Function, name s
 		failed0, _ := a.F["failed"].(*Term)
 		ok := Var(x.siteTag(site)+".scan.ok", SBool)
 		fail := Var(x.siteTag(site)+".scan.fail", SBool)
-		L := x.freshStr(s, site, "scan.line")
+		// raw: the bytes of the line in the file; the token is raw without one
+		// trailing carriage return (bufio.ScanLines)
+		raw := x.freshStr(s, site, "scan.raw")
+		L := Ite(StrSuffixOf(Str("\r"), raw), Substr(raw, Int(0), Sub(StrLen(raw), Int(1))), raw)
 		data := Select(x.fsGet(s, "fsData"), path)
-		withNL := Concat(consumed, L, Str("\n"))
-		s.assume(Implies(ok, And(Not(StrContains(L, Str("\n"))), Or(StrPrefixOf(withNL, data), And(Eq(data, Concat(consumed, L)), Gt(StrLen(L), Int(0)))))))
+		withNL := Concat(consumed, raw, Str("\n"))
+		s.assume(Implies(ok, And(Not(StrContains(raw, Str("\n"))), Or(StrPrefixOf(withNL, data), And(Eq(data, Concat(consumed, raw)), Gt(StrLen(raw), Int(0)))))))
 		s.assume(Implies(And(Not(ok), Not(fail)), Eq(data, consumed)))
 		s.assume(Implies(failed0, Not(ok))) // a failed scanner stays stopped
 		na := &AbsV{Typ: a.Typ, F: map[string]Val{
 			"path":     path,
-			"consumed": Ite(ok, Ite(StrPrefixOf(withNL, data), withNL, Concat(consumed, L)), consumed),
+			"consumed": Ite(ok, Ite(StrPrefixOf(withNL, data), withNL, Concat(consumed, raw)), consumed),
 			"line":     Ite(ok, L, Str("")),
 			"failed":   Ite(ok, failed0, Or(failed0, fail)),
 		}}
